@@ -32,10 +32,11 @@ def enc_pairs(d):
     return enc_list(lambda kv: enc_str(kv[0]) + enc_str(kv[1]), list(d.items()))
 
 
-def enc_config(user_config):
+def enc_config(user_config, draws=()):
     """Encode the *resolved* Config (built by the real emmet.config.Config) for the model.
     Raises NotModelled for configurations outside the model (callbacks that change text, option values
-    of a type the library does not document, ...)."""
+    of a type the library does not document, ...).
+    `draws`: the raw draws of the randint oracle of lorem text (harness/lorem_util.py); empty for lorem-free cases."""
     from emmet.config import Config
     from emmet.snippets import markup_snippets, xsl_snippets, pug_snippets
     uc = copy.deepcopy(user_config)
@@ -147,6 +148,7 @@ def enc_config(user_config):
     w += enc_str(_s(bem_element) if bem_enabled else '')
     w += enc_str(_s(bem_modifier) if bem_enabled else '')
     w += enc_opt(enc_str, ctx_class)
+    w += [len(draws)] + [int(d) for d in draws]
     return w
 
 
